@@ -16,6 +16,7 @@ import (
 	"bytes"
 	"errors"
 	"fmt"
+	"github.com/influxdata/influxdb/pkg/verifhook"
 	"io"
 	"math"
 	"os"
@@ -1044,6 +1045,7 @@ func (c *Compactor) writeNewFiles(generation, sequence int, src []string, iter K
 
 		// Write as much as possible to this file
 		err := c.write(fileName, iter, throttle)
+		verifhook.At("compact.filewritten", fileName, 0)
 
 		// We've hit the max file limit and there is more to write.  Create a new file
 		// and continue.
@@ -1160,6 +1162,7 @@ func (c *Compactor) write(path string, iter KeyIterator, throttle bool) (err err
 		}
 
 		// Write the key and value
+		verifhook.At("compact.block", path, int64(len(block)))
 		if err := w.WriteBlock(key, minTime, maxTime, block); err == ErrMaxBlocksExceeded {
 			if err := w.WriteIndex(); err != nil {
 				return err
